@@ -126,7 +126,12 @@ def worldOf (s : String) : World :=
 def wireStr (x : Wire) : String :=
   s!"{x.ep}:{if x.post then "POST" else "GET"}:{match x.payload with | some b => hex b | none => "none"}:{match x.status with | some c => toString c | none => "x"}"
 
-/-- `rd follow mode naddr post counter id body world` -/
+/-- what the source nsqd sees of a handling: `fin`, `req`, or nothing (panic) -/
+def respStr (id : Nat) (os : List Out) : String :=
+  if Out.fin id ∈ os then "fin" else if Out.req id ∈ os then "req" else "none"
+
+/-- `rd follow mode naddr post counter id body world` → what is observable from outside the real binary:
+the FIN/REQ the source receives and the requests the destinations receive, in order -/
 def driverLine (ws : List String) : String :=
   match ws with
   | ["rd", follow, mode, naddr, post, counter, id, body, world] =>
@@ -134,7 +139,7 @@ def driverLine (ws : List String) : String :=
     | some follow, some mode, some naddr, some post, some counter, some id, some body =>
       let w := worldOf world
       let r := stepVia follow ⟨mode, naddr, post, false⟩ counter ⟨id, body⟩ false 0 w
-      s!"counter={r.1} {outsStr r.2} | {" ".intercalate ((wireTrace follow post w r.2).map wireStr)}"
+      s!"{respStr id r.2} | {" ".intercalate ((wireTrace follow post w r.2).map wireStr)}"
     | _, _, _, _, _, _, _ => "bad-op"
   | _ => "bad-op"
 
